@@ -68,6 +68,11 @@ type LoopSpec struct {
 	Decreases  []Clause
 }
 
+type RelyClause struct {
+	Callee string
+	Clause Clause
+}
+
 type GhostBind struct {
 	Name   string
 	Method string // invoke method name / static callee short name
@@ -87,6 +92,7 @@ type FuncSpec struct {
 	Assumes   []Clause // postconditions assumed at call sites and NOT proved (each is listed as an assumption)
 	Defines   []Clause // history-predicate definitions: assumed at call sites, not proved (listed)
 	Effects   []GhostEffect // ghost assignments executed at exit (history variables)
+	Relies      []RelyClause // interference invariants re-assumed after a blocking call returns
 	Unreachable []string    // return sites declared dead under the contract assumptions (must be vacuous)
 	PanicEns  []Clause // ensures that must hold if the function panics out (rare)
 	Modifies  []string
@@ -149,6 +155,7 @@ type ChanInv struct {
 	Var    string
 	Params []string
 	Inv    Clause
+	Tags   []string // properties the declaration is active for (empty: always)
 }
 
 type SpecFile struct {
@@ -583,7 +590,7 @@ var clauseKeywords = map[string]bool{
 	"func": true, "iface": true, "field": true, "extern": true, "pure": true, "predicate": true, "ghost": true, "axiom": true,
 	"lockinv": true, "protected": true, "chaninv": true, "atomic": true,
 	"requires": true, "ensures": true, "defines": true, "assumes": true, "modifies": true, "decreases": true, "loop": true, "invariant": true,
-	"effect": true, "unreachable": true, "inline": true, "maypanic": true, "nopanic": true, "trusted": true, "stepinv": true, "props": true, "function": true,
+	"effect": true, "unreachable": true, "rely": true, "inline": true, "maypanic": true, "nopanic": true, "trusted": true, "stepinv": true, "props": true, "function": true,
 }
 
 type rawLine struct {
@@ -697,6 +704,22 @@ func parseSpecFile(path, pkg string) (*SpecFile, error) {
 				}
 				curLoop.Decreases = append(curLoop.Decreases, cl)
 			}
+		case "rely":
+			// rely after Callee: expr  -- other goroutines run while Callee blocks; the shared-state
+			// invariant expr is assumed to hold again when it returns (rely condition, listed as assumption)
+			if cur == nil {
+				return nil, fail(l, "rely outside func")
+			}
+			r := strings.TrimSpace(strings.TrimPrefix(rest, "after"))
+			k := strings.Index(r, ":")
+			if !strings.HasPrefix(rest, "after") || k < 0 {
+				return nil, fail(l, "rely needs: rely after Callee: expr")
+			}
+			e, err := parseExprString(strings.TrimSpace(r[k+1:]))
+			if err != nil {
+				return nil, fail(l, "%v", err)
+			}
+			cur.Relies = append(cur.Relies, RelyClause{Callee: strings.TrimSpace(r[:k]), Clause: Clause{Name: "rely", Expr: e, Src: r, File: base, Line: l.line}})
 		case "unreachable":
 			// unreachable return1, return2 : reason  -- return sites dead under the contract assumptions
 			if cur == nil {
@@ -881,6 +904,16 @@ func parseSpecFile(path, pkg string) (*SpecFile, error) {
 		case "chaninv", "atomic":
 			// chaninv Key(msg[, extra...]): expr      atomic Struct.field(old,new): expr
 			// (the key itself may contain parentheses: (*Exchange).Head.headerRespCh)
+			// an `atomic` declaration may be restricted to properties: atomic [C17] Struct.field(old,new): expr
+			var declTags []string
+			if strings.HasPrefix(rest, "[") {
+				if k := strings.Index(rest, "]"); k > 0 {
+					for _, t := range strings.Split(rest[1:k], ",") {
+						declTags = append(declTags, strings.TrimSpace(t))
+					}
+					rest = strings.TrimSpace(rest[k+1:])
+				}
+			}
 			c := strings.Index(rest, "):")
 			op := -1
 			if c >= 0 {
@@ -898,7 +931,7 @@ func parseSpecFile(path, pkg string) (*SpecFile, error) {
 				ps = append(ps, strings.TrimSpace(x))
 			}
 			ci := &ChanInv{Pkg: pkg, Key: strings.TrimSpace(rest[:op]), Var: ps[0], Params: ps,
-				Inv: Clause{Expr: e, Src: rest[c+2:], File: base, Line: l.line}}
+				Inv: Clause{Expr: e, Src: rest[c+2:], File: base, Line: l.line}, Tags: declTags}
 			if kw == "chaninv" {
 				sf.Chans = append(sf.Chans, ci)
 			} else {
